@@ -96,6 +96,37 @@ def replay_ceil(o, model):
     return got != want, "digital_rf_get_sample_ceil(%d, %d, %d, %d) = %d, exact value %d" % (s, p, n, d, got, want), {"s": s, "p": p, "n": n, "d": d}
 
 
+def replay_parts(o, model):
+    """digital_rf_get_time_parts on the rebuilt library against the proleptic Gregorian calendar (python datetime): the first and the last
+    second of every day from 1970 to 9999 (the calendar fields change only at day boundaries; complete over days)"""
+    import datetime
+    dd, lib = build_lib()
+    bad = None
+    try:
+        y, mo, da, h, mi, se = (ctypes.c_int() for _ in range(6))
+        refs = [ctypes.byref(x) for x in (y, mo, da, h, mi, se)]
+        fn = lib.digital_rf_get_time_parts
+        fn.argtypes = [ctypes.c_long] + [ctypes.POINTER(ctypes.c_int)] * 6
+        d0 = datetime.date(1970, 1, 1).toordinal()
+        ndays = datetime.date(9999, 12, 31).toordinal() - d0 + 1
+        for i in range(ndays):
+            dt = datetime.date.fromordinal(d0 + i)
+            for t, hms in ((i * 86400, (0, 0, 0)), (i * 86400 + 86399, (23, 59, 59))):
+                fn(t, *refs)
+                got = (y.value, mo.value, da.value, h.value, mi.value, se.value)
+                want = (dt.year, dt.month, dt.day) + hms
+                if got != want:
+                    bad = (t, got, want)
+                    break
+            if bad:
+                break
+    finally:
+        shutil.rmtree(dd, ignore_errors=True)
+    if bad:
+        return True, "digital_rf_get_time_parts(%d) = %s, calendar value %s" % bad, {"unix_second": bad[0]}
+    return False, "digital_rf_get_time_parts agrees with the Gregorian calendar on the first and last second of every day 1970-9999", None
+
+
 def run(tier, seed, replay=None):
     ck = harness.Check("C03", tier, seed, level="proof")
     tu = cfront.TU(CSRC)
@@ -137,6 +168,7 @@ def run(tier, seed, replay=None):
     py_wrapper(ck)
     ext_wrapper(ck)
 
+    ck.replayers["digital_rf_get_time_parts"] = replay_parts
     ck.replayers["digital_rf_get_timestamp_floor"] = replay_floor
     ck.replayers["nowrap.digital_rf_get_timestamp_floor"] = replay_floor
     ck.replayers["digital_rf_get_unix_time_rational"] = replay_floor
